@@ -18,7 +18,7 @@ OUTSIDE = ["more than 2 contests with symbolic draws (the draw-by-draw sign comp
 BOUNDS = {"quick": "2 contests, B = 2 draws, levels {0.5, 0.9}, symbolic margin draws for one contest at a time (the other contest has concrete draws); hard threshold, correlation on/off; "
                    "called / stop-listed subsets; history clause: every list and order of aggregates computed before the summary over "
                    "{postal_code, county_fips, county_classification} must give the same summary as the contests alone; several summary requests with different weights after one run; wrong-size dictionary",
-          "thorough": "adds two cases with both contests' draws symbolic at once and history cases for the other contest"}
+          "thorough": "adds one case (correlation off) with both contests' draws symbolic at once and history cases for the other contest"}
 OPTS = {"quick": dict(case_timeout_s=900, solver_timeout_ms=30000, max_paths=200000),
         "thorough": dict(case_timeout_s=3300, solver_timeout_ms=60000, max_paths=2000000)}
 
@@ -49,7 +49,7 @@ def cases(tier):
                         units=units, symbolic_rows=[0], weight=20))
     if tier == "thorough":
         # both contests with symbolic draws at once (thousands of sign patterns per case)
-        for corr in (True, False):
+        for corr in (False,):  # (with correlation on, 55 minutes were not enough to exhaust the case)
             out.append(dict(name="summary_%s_nocalls_both_rows" % ("corr" if corr else "nocorr"), kind="summary", corr=corr, calls={}, B=2,
                             alphas=[0.9], units=units, weights=[11, 16], base=100, aggregates=["postal_code", "unit"], weight=500))
         for o in (["postal_code", "county_fips"], ["county_fips", "postal_code"]):
